@@ -703,6 +703,32 @@ func (s *Sim) doRead(r *req, alt int) {
 		s.reply(r, resp{err: &kerr{op: op, errno: e}})
 		return
 	}
+	if len(k.q) > 0 && k.Proto == "tcp" {
+		// a byte stream: a read takes whatever has arrived so far, up to the size of the caller's buffer; what does
+		// not fit stays queued
+		d := k.q[0]
+		var buf []byte
+		for len(k.q) > 0 && len(buf) < r.n {
+			seg := k.q[0]
+			room := r.n - len(buf)
+			if len(seg.data) <= room {
+				buf = append(buf, seg.data...)
+				k.q = k.q[1:]
+			} else {
+				buf = append(buf, seg.data[:room]...)
+				k.q[0].data = seg.data[room:]
+			}
+		}
+		if expired {
+			s.Stats["tie:data-at-deadline"]++
+		}
+		if len(buf) != len(d.data) {
+			s.Stats["tcp-read-not-one-segment"]++
+		}
+		s.logG(r.g, Ev{Kind: "read", Sock: k.ID, Src: d.from.String(), Dst: d.tag, N: len(buf), Data: buf, Note: itoa(int64(len(buf)))})
+		s.reply(r, resp{n: len(buf), from: d.from, data: buf})
+		return
+	}
 	if len(k.q) > 0 {
 		d := k.q[0]
 		k.q = k.q[1:]
